@@ -1253,7 +1253,7 @@ def mon_c03(case):
                 msg = put_rule()
             elif c in (16, 17, 18) and op[1] not in byk:
                 msg = put_rule()
-            elif c in (1, 2, 3, 4, 5, 8, 9, 10, 13, 15, 16, 17, 18, 19, 20, 21, 22):
+            elif c in (1, 2, 3, 4, 5, 8, 9, 10, 13, 15, 16, 17, 18, 19, 20, 21, 22, 24):
                 if names != pnames:
                     msg = f"call {op[:4]} must not move or relink any node: nodes {pnames} -> {names}"
             elif c in (12, 14):
